@@ -45,10 +45,10 @@ type c14Commit struct {
 }
 
 type c14State struct {
-	sb  *comp.SimpleBus[int]
-	sbN int
-	bb  *comp.BufferedBus[int]
-	bbN int
+	sb     *comp.SimpleBus[int]
+	sbN    int
+	bb     *comp.BufferedBus[int]
+	bbN    int
 	bbLast int // last id handed out by Get/Pick, -1 if none
 	q      *comp.Queue[int]
 	qN     int
